@@ -79,6 +79,9 @@ SS = [
     "while flag:\n    break\nelse:\n    {S}", "for _q in lst:\n    {S}", "for _q in lst:\n    pass\nelse:\n    {S}", "with ctx():\n    {S}",
     "try:\n    {S}\nfinally:\n    pass", "try:\n    pass\nexcept Exception:\n    {S}", "try:\n    pass\nexcept Exception:\n    pass\nelse:\n    {S}",
     "try:\n    pass\nfinally:\n    {S}", "match 1:\n    case 1:\n        {S}", "def f{i}():\n    def g():\n        {S}",
+    "try:\n    pass\nexcept:\n    {S}", "try:\n    pass\nexcept Exception as _e{i}:\n    {S}", "try:\n    pass\nexcept (ValueError, TypeError):\n    pass\nexcept:\n    {S}",
+    "with ctx() as _w{i}:\n    {S}", "with ctx(), ctx():\n    {S}", "async def f{i}():\n    async with ctx():\n        {S}",
+    "async def f{i}():\n    async for _q in lst:\n        {S}", "match 1:\n    case 1 if flag:\n        {S}", "match 1:\n    case _:\n        {S}",
     "if flag:\n    if name:\n        {S}",
 ]
 # blocks mypy decides statically (marked unreachable at semantic analysis): only the identity probe looks into them,
@@ -249,8 +252,21 @@ def run(ctx) -> None:
         corpus = extract_c04.probe_corpus()
         probe_names = [n for n, _ in files][: (6 if ctx.quick else 60)]
         gen_probe = extract_c04.run_probe(d, probe_names) if probe_names else {"trees": {}, "visits": {}, "stray_visits": []}
+        # refurb's own idiom files (test/data/*.py): real-world shapes nobody wrote with this check in mind
+        td_all = sorted(p for p in (core.REPO / "test" / "data").glob("*.py") if compiles(p))
+        td_pick = td_all if not ctx.quick else sorted(ctx.rng("c04-td").sample(td_all, min(len(td_all), 45)))
+        td_names = []
+        for pth in td_pick:
+            (d / ("td_" + pth.name)).write_bytes(pth.read_bytes())
+            td_names.append("td_" + pth.name)
+        try:
+            td_probe = extract_c04.run_probe(d, td_names) if td_names else {"trees": {}, "visits": {}, "stray_visits": []}
+        except RuntimeError as e:
+            td_probe = {"trees": {}, "visits": {}, "stray_visits": []}
+            res.notes.append(f"identity probe on test/data failed: {str(e)[-300:]}")
+        res.bump("probe_files_test_data", len(td_names))
     reqs, metas = [], []
-    for label, data in (("corpus", corpus), ("generated", gen_probe)):
+    for label, data in (("corpus", corpus), ("generated", gen_probe), ("test-data", td_probe)):
         if "error" in data:
             res.violate(f"refurb could not lint the probe files ({label}): {data['error'][:3]}", {"kind": "probe-error", "where": label}, {"errors": data["error"]})
             continue
@@ -295,7 +311,7 @@ def run(ctx) -> None:
                     if n != 1:
                         res.violate(
                             f"a {kind} node (line {line}, column {col} of {fname}) was handed to the check subscribed to {ty} {n} times",
-                            {"kind": "identity", "node": kind, "times": n},
+                            {"kind": "identity", "node": kind, "times": n, "file": fname},
                             {"file": fname, "line": line, "col": col, "how": "python -m harness.treeprobe out.json FILE (see harness/treeprobe.py) in a scratch dir containing the file", "source": _source(label, fname)},
                         )
             outside = [v for v in visits if v[0] not in kinds]
@@ -305,6 +321,11 @@ def run(ctx) -> None:
                 res.violate(f"a {v0[1]} node outside the reference tree (line {v0[2]}) was handed to a check {len(twice_outside)} x twice", {"kind": "identity-outside", "node": v0[1]}, {"file": fname, "visit": v0, "source": _source(label, fname)})
             for e in set(dup_edges):
                 res.disagreements.append({"where": "reference-tree", "reason": f"a child of {e[0]}.{e[1]} is also reachable through another path: the alias-field list (Model/Tree.lean) no longer makes the syntax a tree", "file": fname})
+            if tree_depth(tree) > 150:
+                # a long operator chain: JSON encoders/decoders (Python's C one, Lean's) have fixed depth limits; the identity
+                # check above is done, only the model walk is skipped for this file
+                res.bump("model_walk_skipped_deep_tree")
+                continue
             reqs.append({"verb": "walk", "tree": tree})
             metas.append((label, fname, visits, kinds))
     if ctx.driver.available():
@@ -325,6 +346,25 @@ def run(ctx) -> None:
     res.trusted_extra.append("harness/treeprobe.py (identity-based recording of what RefurbVisitor hands to checks; reflection over mypy's compiled node classes via dir())")
 
 
+def tree_depth(tree: dict[str, Any]) -> int:
+    best, todo = 0, [(tree, 1)]
+    while todo:
+        t, d = todo.pop()
+        best = max(best, d)
+        for _f, c in t.get("kids", []):
+            if "dup" not in c:
+                todo.append((c, d + 1))
+    return best
+
+
+def compiles(p: Path) -> bool:
+    try:
+        compile(p.read_bytes(), str(p), "exec")
+        return True
+    except (SyntaxError, ValueError):
+        return False
+
+
 def prune_alias(tree: dict[str, Any]) -> dict[str, Any]:
     alias = {("CallExpr", "analyzed"), ("TypeApplication", "expr")}
     return {**tree, "kids": [[f, c if "dup" in c else prune_alias(c)] for f, c in tree["kids"] if (tree["kind"], f) not in alias]}
@@ -338,6 +378,8 @@ def _valid_types() -> list[Any]:
 
 def _source(label: str, fname: str) -> str | None:
     p = core.VERIF / "corpus" / "C04" / fname
+    if label == "test-data":
+        return f"/repo/test/data/{fname[3:]} (copied as {fname})"
     return p.read_text() if label == "corpus" and p.exists() else None
 
 
